@@ -86,6 +86,10 @@ class TupleCoord(recordclass.RecordClass, _IterableStub):
             return other == self.data()
         return other.data() == self.data()
 
+    def __ne__(self, other):
+        # recordclass' __ne__ only knows its own class: Vector3(0, 1, 0) != (0, 1, 0) was True
+        return not self.__eq__(other)
+
     def __gt__(self, other):
         return all(x > y for x, y in zip(self, other))
 
@@ -313,7 +317,11 @@ class JankStringyBytes(bytes):
         return super().__eq__(other)
 
     def __ne__(self, other):
-        return not self.__eq__(other)
+        eq = self.__eq__(other)
+        if eq is NotImplemented:
+            # `not NotImplemented` is False: JankStringyBytes(b"abc") != 3 was False
+            return NotImplemented
+        return not eq
 
     def __contains__(self, item):
         if isinstance(item, str):
